@@ -71,11 +71,22 @@ def _install(prog):
         eng.template_libraries["vf_c06"] = l2
     extra = {}
     for i in range(1, len(prog["comps"]) + 1):
-        def before(self, context, template, i=i):
-            point("before", [i, self.id])
+        hook = prog["comps"][i - 1].get("hook") or {"bx": "", "bv": "", "after": "none"}
 
-        def after(self, context, template, content, i=i):
+        def before(self, context, template, i=i, hook=hook):
+            point("before", [i, self.id])
+            if hook["bx"]:
+                context[hook["bx"]] = hook["bv"]
+
+        def after(self, context, template, content, i=i, hook=hook):
             point("after", [i, self.id])
+            if hook["after"] == "wrap":
+                return f"[A{i}]{content}[/A{i}]"
+            if hook["after"] == "replace":
+                return f"[R{i}]"
+            if hook["after"] == "same":
+                return content
+            return None
 
         tag = "c_" + prog["mode"]
         extra[i] = {"on_render_before": before, "on_render_after": after,
@@ -233,7 +244,9 @@ def body(chk: Check, *, n_programs: int, deep: int, machine: bool = True, mc_nod
     if machine:
         model_check_machine(chk)
     rnd = random.Random(chk.seed * 1000003 + 6)
-    g = P.Gen(rnd, depth=deep, width=2, collide=False, provide=True, required=0.0, ncomps=(1, 3))
+    # (hooks: on_render_before writing the context, on_render_after keeping / wrapping / replacing the output - a
+    #  finished render must leave nothing behind whatever the hooks return)
+    g = P.Gen(rnd, depth=deep, width=2, collide=False, provide=True, required=0.0, ncomps=(1, 3), hooks=0.4)
     progs = [g.program(i + 1, P.MODES[i % 2]) for i in range(n_programs)]
     exp = djc.oracle(progs)
     # plus EVERY TLC-enumerated page of the 'provide' alphabet (providers at page level and inside a component
